@@ -11,6 +11,7 @@ import (
 	"github.com/siyul-park/uniflow/pkg/port"
 	"github.com/siyul-park/uniflow/pkg/process"
 	"github.com/siyul-park/uniflow/pkg/runtime"
+	"github.com/siyul-park/uniflow/pkg/symbol"
 
 	"verifharness/lib"
 )
@@ -51,6 +52,8 @@ type tap struct {
 	names   map[portKey]string
 	keys    []portKey
 	log     []hookEv
+	symIdx  map[*symbol.Symbol]int // also symbols that have been replaced meanwhile
+	next    int
 }
 
 func (t *tap) pckID(p *packet.Packet) int {
@@ -77,49 +80,55 @@ func (t *tap) record(proc *process.Process, key portKey, inb bool, p *packet.Pac
 
 func installTap(f *flow) *tap {
 	t := &tap{procs: map[*process.Process]int{}, pcks: map[*packet.Packet]int{}, inPorts: map[*port.InPort]portKey{},
-		outPort: map[*port.OutPort]portKey{}, names: map[portKey]string{}}
-	next := 0
+		outPort: map[*port.OutPort]portKey{}, names: map[portKey]string{}, symIdx: map[*symbol.Symbol]int{}}
 	for i, sb := range f.syms {
-		ins := sb.Ins()
-		var names []string
-		for n := range ins {
-			names = append(names, n)
-		}
-		sort.Strings(names)
-		for _, n := range names {
-			in := ins[n]
-			key := portKey{sym: i, in: next, out: -1}
-			next++
-			t.inPorts[in] = key
-			t.names[key] = n
-			t.keys = append(t.keys, key)
-			in.AddOpenHook(port.OpenHookFunc(func(proc *process.Process) {
-				r := in.Open(proc)
-				r.AddInboundHook(packet.HookFunc(func(p *packet.Packet) { t.record(proc, key, true, p) }))
-				r.AddOutboundHook(packet.HookFunc(func(p *packet.Packet) { t.record(proc, key, false, p) }))
-			}))
-		}
-		outs := sb.Outs()
-		names = nil
-		for n := range outs {
-			names = append(names, n)
-		}
-		sort.Strings(names)
-		for _, n := range names {
-			out := outs[n]
-			key := portKey{sym: i, in: -1, out: next}
-			next++
-			t.outPort[out] = key
-			t.names[key] = n
-			t.keys = append(t.keys, key)
-			out.AddOpenHook(port.OpenHookFunc(func(proc *process.Process) {
-				w := out.Open(proc)
-				w.AddInboundHook(packet.HookFunc(func(p *packet.Packet) { t.record(proc, key, true, p) }))
-				w.AddOutboundHook(packet.HookFunc(func(p *packet.Packet) { t.record(proc, key, false, p) }))
-			}))
-		}
+		t.addSymbol(i, sb)
 	}
 	return t
+}
+
+// addSymbol taps every (materialised) port of the symbol standing at position i of the workflow
+// (also a symbol that replaces an earlier one there: its ports are new ports with keys of their own).
+func (t *tap) addSymbol(i int, sb *symbol.Symbol) {
+	t.symIdx[sb] = i
+	ins := sb.Ins()
+	var names []string
+	for n := range ins {
+		names = append(names, n)
+	}
+	sort.Strings(names)
+	for _, n := range names {
+		in := ins[n]
+		key := portKey{sym: i, in: t.next, out: -1}
+		t.next++
+		t.inPorts[in] = key
+		t.names[key] = n
+		t.keys = append(t.keys, key)
+		in.AddOpenHook(port.OpenHookFunc(func(proc *process.Process) {
+			r := in.Open(proc)
+			r.AddInboundHook(packet.HookFunc(func(p *packet.Packet) { t.record(proc, key, true, p) }))
+			r.AddOutboundHook(packet.HookFunc(func(p *packet.Packet) { t.record(proc, key, false, p) }))
+		}))
+	}
+	outs := sb.Outs()
+	names = nil
+	for n := range outs {
+		names = append(names, n)
+	}
+	sort.Strings(names)
+	for _, n := range names {
+		out := outs[n]
+		key := portKey{sym: i, in: -1, out: t.next}
+		t.next++
+		t.outPort[out] = key
+		t.names[key] = n
+		t.keys = append(t.keys, key)
+		out.AddOpenHook(port.OpenHookFunc(func(proc *process.Process) {
+			w := out.Open(proc)
+			w.AddInboundHook(packet.HookFunc(func(p *packet.Packet) { t.record(proc, key, true, p) }))
+			w.AddOutboundHook(packet.HookFunc(func(p *packet.Packet) { t.record(proc, key, false, p) }))
+		}))
+	}
 }
 
 var obsDeadFrames int
@@ -146,10 +155,8 @@ func (t *tap) readFrames(f *flow, a *runtime.Agent, proc *process.Process) []fra
 	var rows []frameRow
 	for _, fr := range a.Frames(proc.ID()) {
 		row := frameRow{key: portKey{sym: -1, in: -1, out: -1}, in: t.pckID(fr.InPck), out: t.pckID(fr.OutPck)}
-		for i, sb := range f.syms {
-			if sb == fr.Symbol {
-				row.key.sym = i
-			}
+		if i, ok := t.symIdx[fr.Symbol]; ok {
+			row.key.sym = i
 		}
 		if fr.InPort != nil {
 			row.key.in = t.inPorts[fr.InPort].in
@@ -181,6 +188,76 @@ func showCol(rows []frameRow, key portKey) string {
 
 // framesOracle checks the statement directly: every completed frame pairs the k-th request of a
 // port with the k-th answer of that same port (FIFO per port), every request has its frame.
+// dedupAdjacent drops a frame that repeats its predecessor on the same port (a symbol loaded twice
+// has two sets of hooks on the endpoints of processes that came later: every frame is recorded twice).
+func dedupAdjacent(rows []frameRow) []frameRow {
+	last := map[portKey]frameRow{}
+	var out []frameRow
+	for _, r := range rows {
+		if p, ok := last[r.key]; ok && p == r {
+			continue
+		}
+		last[r.key] = r
+		out = append(out, r)
+	}
+	return out
+}
+
+// framesPairingOracle is the oracle for histories with Agent.Unload / Load in them: which frames
+// exist is then the agent's choice, what the statement fixes is that every complete frame pairs
+// request i with answer i of its port and process (FIFO per port, the harness's hook log), and
+// that once every request has been answered no frame is left half-open.
+func framesPairingOracle(t *tap, sess int, rows []frameRow) (class, what string) {
+	reqs, answs := map[portKey][]int{}, map[portKey][]int{}
+	for _, e := range t.log {
+		if e.sess != sess {
+			continue
+		}
+		if e.inb == (e.key.in >= 0) {
+			reqs[e.key] = append(reqs[e.key], e.pck)
+		} else {
+			answs[e.key] = append(answs[e.key], e.pck)
+		}
+	}
+	idx := func(xs []int, p int) int {
+		for j, x := range xs {
+			if x == p {
+				return j
+			}
+		}
+		return -1
+	}
+	for i, r := range rows {
+		req, ans := r.in, r.out
+		if r.key.in < 0 {
+			req, ans = r.out, r.in
+		}
+		name := fmt.Sprintf("port %v (%s)", r.key, t.names[r.key])
+		if req < 0 {
+			return "frame-half-open", fmt.Sprintf("%s: frame %d holds only the answer packet %s (answer %d of the port) and no request, although every request has been answered", name, i, pid(ans), idx(answs[r.key], ans))
+		}
+		k := idx(reqs[r.key], req)
+		if k < 0 {
+			return "frame-cross-port", fmt.Sprintf("%s: frame %d holds request packet %s, which never passed that port", name, i, pid(req))
+		}
+		if ans < 0 {
+			if k < len(answs[r.key]) {
+				return "frame-half-open", fmt.Sprintf("%s: frame %d holds request %d (packet %s) and no answer, although request %d was answered by packet %s", name, i, k, pid(req), k, pid(answs[r.key][k]))
+			}
+			continue
+		}
+		if k >= len(answs[r.key]) || answs[r.key][k] != ans {
+			return "frame-not-request-i-answer-i", fmt.Sprintf("%s: frame %d pairs request %d (packet %s) with packet %s, which is answer %d of the port; the answer to request %d was packet %s", name, i, k, pid(req), pid(ans), idx(answs[r.key], ans), k, func() string {
+				if k < len(answs[r.key]) {
+					return pid(answs[r.key][k])
+				}
+				return "-"
+			}())
+		}
+	}
+	return "", ""
+}
+
 func framesOracle(t *tap, sess int, rows []frameRow, sr *sessRun) (class, what string) {
 	// (1) against the request log (the harness's reference reading of the workflow, independent of
 	// any packet hook): on every port exactly one frame per request that passed it, none half-open
@@ -379,8 +456,28 @@ func framesCaseBody(c *lib.Ctx, fs flowSpec, nsess int, ops []op, early bool, sc
 			return ""
 		}
 	}
+	lax := false // Agent.Unload / Load / process restarts in the schedule: which frames exist is the agent's choice
+	for _, o := range ops {
+		if o.kind == 'U' || o.kind == 'L' || o.kind == 'X' {
+			lax = true
+		}
+	}
 	t := installTap(f)
 	r := newRunner(f, nsess)
+	r.onRestart = func(sess int, old, fresh *session) {
+		// the old process and everything recorded for it are gone: the session's log starts afresh
+		t.mu.Lock()
+		defer t.mu.Unlock()
+		delete(t.procs, old.proc)
+		t.procs[fresh.proc] = sess
+		var kept []hookEv
+		for _, e := range t.log {
+			if e.sess != sess {
+				kept = append(kept, e)
+			}
+		}
+		t.log = kept
+	}
 	for _, p := range prep { // directed scenarios: the harness's own hooks, added after the agent's
 		p(r)
 	}
@@ -458,14 +555,31 @@ func framesCaseBody(c *lib.Ctx, fs flowSpec, nsess int, ops []op, early bool, sc
 			continue
 		}
 		rows := t.readFrames(f, agent, sr.s.proc)
-		sc.Op(fmt.Sprintf("nframes %d", si), fmt.Sprint(len(rows)))
-		for _, k := range t.keys {
-			sc.Op(fmt.Sprintf("col %d %v", si, k), showCol(rows, k))
+		if lax {
+			// frames recorded twice (a symbol loaded twice) count once; a port the agent holds nothing
+			// for (unloaded before the process came) is not compared; the number of frames is not
+			rows = dedupAdjacent(rows)
+			for _, k := range t.keys {
+				if col := showCol(rows, k); col != "0" {
+					sc.Op(fmt.Sprintf("col %d %v", si, k), col)
+				}
+			}
+		} else {
+			sc.Op(fmt.Sprintf("nframes %d", si), fmt.Sprint(len(rows)))
+			for _, k := range t.keys {
+				sc.Op(fmt.Sprintf("col %d %v", si, k), showCol(rows, k))
+			}
 		}
 		for _, row := range rows {
 			trace = append(trace, fmt.Sprintf("# frame sess=%d port=%v(%s) in=%s out=%s", si, row.key, t.names[row.key], pid(row.in), pid(row.out)))
 		}
-		if class, what := framesOracle(t, si, rows, sr); class != "" {
+		class, what := "", ""
+		if lax {
+			class, what = framesPairingOracle(t, si, rows)
+		} else {
+			class, what = framesOracle(t, si, rows, sr)
+		}
+		if class != "" {
 			*fails = append(*fails, lib.OracleFail{Class: class, What: fs.String() + ": " + what, Replay: replay()})
 		}
 		// interleaving across ports of one symbol in this case? several requests open on one port?
